@@ -2,8 +2,11 @@ package main
 
 import (
 	"context"
+	"encoding/json"
 	"errors"
 	"fmt"
+	"os"
+	"path/filepath"
 	"sort"
 	"strconv"
 	"strings"
@@ -151,6 +154,71 @@ func driveUpdates(c *hx.Ctx) error {
 	sh := c.NewShard("updates", imports, "upd_case", "corr_update", "holds_update", 500)
 	ss := c.NewShard("schedules", imports, "sched_case", "corr_sched", "holds_sched", 50)
 	r := c.Rand("updates")
+
+	// --- committed boundary cases, one call at a time on an otherwise idle Adaptation
+	if files := corpusFiles("C19"); len(files) > 0 {
+		e, err := newEnv(c.Out)
+		if err != nil {
+			return err
+		}
+		p := newPlug(e, "42", "corpus", api.ValidEvents)
+		if err := p.startStub(e.sock); err != nil {
+			e.close()
+			return err
+		}
+		if err := e.waitSynced(10*time.Second, p); err != nil {
+			e.close()
+			return err
+		}
+		k := 0
+		for _, f := range files {
+			var l []struct {
+				What     string    `json:"what"`
+				Updates  []updItem `json:"updates"`
+				CbFailed []updItem `json:"cb_failed"`
+				CbErr    string    `json:"cb_err"`
+			}
+			raw, err := os.ReadFile(f)
+			if err == nil {
+				err = json.Unmarshal(raw, &l)
+			}
+			if err != nil {
+				c.HarnessError("corpus %s: %v", f, err)
+				continue
+			}
+			for _, en := range l {
+				k++
+				u := &updCase{Stream: "updates", N: 1000000 + k, Plugin: p.name, Started: true, Updates: append([]updItem{}, en.Updates...),
+					CbFailed: append([]updItem{}, en.CbFailed...), CbErr: en.CbErr, Seen: [][]updItem{}, RetFailed: []updItem{}}
+				var mu sync.Mutex
+				e.setUpdateFn(func(_ context.Context, us []*adaptation.ContainerUpdate) ([]*adaptation.ContainerUpdate, error) {
+					mu.Lock()
+					defer mu.Unlock()
+					u.Seen = append(u.Seen, toItems(us))
+					if u.CbErr != "" {
+						return fromItems(u.CbFailed), errors.New(u.CbErr)
+					}
+					return fromItems(u.CbFailed), nil
+				})
+				failed, uerr := p.st.UpdateContainers(fromItems(u.Updates))
+				mu.Lock()
+				u.RetFailed = toItems(failed)
+				if uerr != nil {
+					u.RetErr = uerr.Error()
+				}
+				mu.Unlock()
+				sh.Add(updCaseTerm(u), u)
+				if why := updOracle(u); why != "" {
+					c.ImplFail("updates", why, u)
+				}
+				c.Eval(fmt.Sprintf("corpus/%s/%d", filepath.Base(f), k), true)
+				c.Count("updates.corpus", 1)
+			}
+		}
+		e.setUpdateFn(nil)
+		p.stop()
+		e.close()
+	}
 
 	rounds := c.Pick(10, 24)
 	perPlugin := c.Pick(40, 100)
